@@ -15,8 +15,16 @@ inductive Act
   | call (uses : List Nat) (fallible : Bool)
   /-- C-side ownership transfer on success (e.g. `ECDSA_SIG_set0(into, r, s)`) -/
   | give (rs : List Nat) (into : Nat)
-  /-- `DetachableLcPtr::detach`: the wrapper will no longer free `r` -/
+  /-- `DetachableLcPtr::detach`: the wrapper will no longer free `r` (also `mem::forget`, `ManuallyDrop`) -/
   | detach (r : Nat)
+  /-- an aws-lc call leaves a new object in a raw pointer (return value or out-parameter): allocated, no wrapper yet -/
+  | allocRaw (r : Nat)
+  /-- `LcPtr::new(raw)` / `DetachableLcPtr::new(raw)` on an already allocated raw pointer: a wrapper now owns `r` -/
+  | adopt (r : Nat) (detachable : Bool)
+  /-- a direct call of an aws-lc release function on `r` -/
+  | rawFree (r : Nat)
+  /-- `drop(x)` of a wrapper before the end of the function -/
+  | dropNow (r : Nat)
   deriving Repr
 
 structure Fn where
@@ -35,12 +43,16 @@ structure St where
   bad : List String := []               -- violations found
   deriving Repr
 
+/-- record the release of `r` (a second release of the same object is a violation) -/
+def St.release (s : St) (r : Nat) : St :=
+  { s with bad := if s.frees.contains r then s!"double free of {r}" :: s.bad else s.bad,
+           frees := r :: s.frees, live := s.live.erase r }
+
 def St.free (s : St) (fuel : Nat) (r : Nat) : St :=
   match fuel with
   | 0 => s
   | f + 1 =>
-    let s := if s.frees.contains r then { s with bad := s!"double free of {r}" :: s.bad } else s
-    let s := { s with frees := r :: s.frees, live := s.live.erase r }
+    let s := s.release r
     -- freeing a parent frees the objects whose ownership it took
     (s.children.filter (fun c => c.2 == r)).foldl (fun s c => s.free f c.1) s
 
@@ -55,29 +67,52 @@ def step (s : St) (borrowed : List Nat) : Act → St
                            else { s with bad := s!"use of {u} after free / before allocation" :: s.bad }) s
   | .give rs into => { s with children := rs.map (fun r => (r, into)) ++ s.children }
   | .detach r => { s with scope := s.scope.map (fun w => if w.1 == r then (w.1, false) else w) }
+  | .allocRaw r => { s with live := r :: s.live }
+  | .adopt r _ =>
+    if s.live.contains r then { s with scope := (r, true) :: s.scope }
+    else { s with bad := s!"wrapper adopts {r}, which is not a live object" :: s.bad }
+  | .rawFree r => s.free 8 r
+  | .dropNow r =>
+    if s.scope.any (fun w => w.1 == r && w.2) then
+      let s := s.free 8 r
+      { s with scope := s.scope.map (fun w => if w.1 == r then (w.1, false) else w) }
+    else s
 
 def fallible : Act → Bool
   | .alloc _ _ => true          -- allocation returning NULL
   | .call _ f => f
   | .give _ _ => true           -- the transferring call can fail, in which case nothing is transferred
   | .detach _ => false
+  | .allocRaw _ => true         -- the allocating call can fail, in which case nothing was allocated
+  | .adopt _ _ => false         -- `new` fails only on NULL; an allocated object is not NULL
+  | .rawFree _ => false
+  | .dropNow _ => false
 
-/-- run with a failure at fallible step number `failAt` (`none`: no failure) -/
-def run (f : Fn) (failAt : Option Nat) : St :=
-  let rec go (acts : List Act) (idx : Nat) (s : St) : St × Bool :=
-    match acts with
-    | [] => (s, true)
-    | a :: rest =>
-      if fallible a && failAt == some idx then (s, false)     -- early return before the effect
-      else go rest (idx + 1) (step s f.borrowed a)
-  let (s, ok) := go f.body 0 {}
+/-- execute the actions; stop *before* the effect of fallible step number `failAt` (`none`: no failure).
+    Returns the state and whether the end of the body was reached. -/
+def runGo (borrowed : List Nat) (failAt : Option Nat) (acts : List Act) (idx : Nat) (s : St) : St × Bool :=
+  match acts with
+  | [] => (s, true)
+  | a :: rest =>
+    if fallible a && failAt == some idx then (s, false)     -- early return before the effect
+    else runGo borrowed failAt rest (idx + 1) (step s borrowed a)
+
+/-- leaving the function: drop the wrappers in scope, then check what is left -/
+def finish (f : Fn) (s : St) (ok : Bool) : St :=
   let s := s.dropScope (if ok then f.returns else [])
   -- leak check: everything allocated is freed, or (on success) owned by the return value, directly or through a parent
   let owned (r : Nat) : Bool := ok && (f.returns.contains r || s.children.any (fun c => c.1 == r && f.returns.contains c.2))
   let leaks := s.live.filter (fun r => !owned r)
   -- the returned value must not own an object that was already freed (it would be freed again later)
   let dangling := if ok then (s.children.filter (fun c => f.returns.contains c.2 && s.frees.contains c.1)).map (·.1) else []
-  { s with bad := leaks.map (fun r => s!"leak of {r}") ++ dangling.map (fun r => s!"returned value owns freed object {r}") ++ s.bad }
+  -- nor may the returned object itself have been released
+  let freedRet := if ok then f.returns.filter (fun r => s.frees.contains r) else []
+  { s with bad := leaks.map (fun r => s!"leak of {r}") ++ dangling.map (fun r => s!"returned value owns freed object {r}") ++
+                  freedRet.map (fun r => s!"returned object {r} was already freed") ++ s.bad }
+
+/-- run with a failure at fallible step number `failAt` (`none`: no failure) -/
+def run (f : Fn) (failAt : Option Nat) : St :=
+  finish f (runGo f.borrowed failAt f.body 0 {}).1 (runGo f.borrowed failAt f.body 0 {}).2
 
 def Fn.ok (f : Fn) : Bool :=
   ((none :: (List.range f.body.length).map some).all (fun fa => (run f fa).bad.isEmpty))
